@@ -37,14 +37,17 @@ Q = 60000
 
 
 class NetC(nn.Module):
-    def __init__(self, bias=True, dil=(1, 1), k=(2, 2), big_bias=False, HW=3):
+    def __init__(self, bias=True, dil=(1, 1), k=(2, 2), big_bias=False, HW=3, relu_flat=False):
         super().__init__()
+        self.relu_flat = relu_flat      # the ReLU is applied after the flatten (it does not directly follow the convolution in the graph)
         self.c0 = nn.Conv2d(1, 2, k, dilation=dil, bias=bias)
         oh, ow = HW - dil[0] * (k[0] - 1), HW - dil[1] * (k[1] - 1)
         self.fc = nn.Linear(2 * oh * ow, 2, bias=bias)
         self.big_bias = big_bias
 
     def forward(self, x):
+        if self.relu_flat:
+            return self.fc(torch.relu(self.c0(x).flatten(1)))
         return self.fc(torch.relu(self.c0(x)).flatten(1))
 
 
@@ -75,12 +78,14 @@ def instances(tier, seed):
     out = []
     for s in range(0, 7):
         out.append({'id': f'binary_search:div=2^-{s}', 'what': 'bs', 's': s})
-    nets = [('C', {}), ('L', {}), ('C', {'big_bias': True}), ('L', {'big_bias': True}), ('F', {}), ('C', {'big_bias': 'neg'}), ('L', {'big_bias': 'neg'})]
+    nets = [('C', {}), ('L', {}), ('C', {'big_bias': True}), ('L', {'big_bias': True}), ('F', {}), ('C', {'big_bias': 'neg'}), ('L', {'big_bias': 'neg'}), ('C', {'relu_flat': True})]
     bits = [8, 4] if tier == 'quick' else [8, 4, 2]
     for be in ('MATCH', 'MAUPITI'):
         for net, kw in nets:
             for b in bits:
                 if be == 'MAUPITI' and (kw.get('big_bias') or net == 'F'):
+                    continue
+                if kw.get('relu_flat') and b != 8:
                     continue
                 opts = [{}] + ([{'scale_bit': 16, 'shift_pos': 32}] if (tier == 'thorough' and be == 'MATCH') else [])
                 if be == 'MATCH' and not kw and net in ('C', 'F'):
@@ -218,7 +223,30 @@ def concrete_layer_diff(rec):
     return None, 'layer not found'
 
 
+def concrete_wiring(rec):
+    e, i, shape = _build(rec['net'], rec['kw'], rec['bits'], rec['backend'], rec['opts'], rec.get('wseed', 0))
+    pairs = {n: ic for n, qc, ic in _pairs(e, i)}
+    cap = {}
+
+    def out_hook(m_, inp, out):
+        if len(rec['y']) != out.numel():
+            return None
+        return torch.tensor([float(v) for v in rec['y']], dtype=torch.float32).reshape(tuple(out.shape))
+
+    def in_hook(m_, inp):
+        cap['x'] = inp[0].detach().reshape(-1).tolist()
+    h0, h1 = pairs[rec['frm']].register_forward_hook(out_hook), pairs[rec['to']].register_forward_pre_hook(in_hook)
+    with torch.no_grad():
+        i(torch.zeros(1, *shape))
+    h0.remove()
+    h1.remove()
+    return cap.get('x')
+
+
 def replay(rec):
+    if rec.get('observable') == 'wiring':
+        x = concrete_wiring(rec)
+        return x is None or [float(v) for v in x] != [float(v) for v in rec['y']], f'emitted {rec["y"]} received {x}'
     if rec['observable'] == 'binary_search':
         from plinio.methods.mps.quant.backends.utils import binary_search
         x, div = float(Fraction(rec['x'])), 2.0 ** -rec['s']
@@ -408,5 +436,59 @@ def _run_net(res, p, selftest):
             elif not res.violations:
                 res.errors.append(f'engine: within tolerance, plain torch: {d} {info[:200]}')
         res.absorb(ex)
+    # wiring: whatever integer tensor layer k emits (every value of its declared output range, negative ones included for MAUPITI) reaches
+    # layer k+1 unchanged (up to reshaping) - the per-layer obligations above then compose to the whole network. Layer k's output is replaced by
+    # fresh z3 integers through a forward hook, the real integer network runs on, and the input of layer k+1 is captured.
+    pairs = _pairs(e, i)
+    for (n0, q0, ic0), (n1, q1, ic1) in zip(pairs, pairs[1:]):
+        ob = int(q1.in_quantizer.precision)
+        lo, hi = (0, 2 ** ob - 1) if be == 'MATCH' else (-2 ** (ob - 1), 2 ** (ob - 1) - 1)
+
+        class _Stop(Exception):
+            pass
+
+        def fnw(ex):
+            cap = {}
+            with SymMode():
+                def out_hook(m_, inp, out):
+                    ys = [z3.Int(f'y_{k}') for k in range(out.numel())]
+                    for v in ys:
+                        ex.assume(v >= lo, v <= hi)
+                    cap['y'] = ys
+                    return SymTensor.from_array(np.array(ys, dtype=object).reshape(tuple(out.shape)), torch.float32)
+
+                def in_hook(m_, inp):
+                    cap['x'] = list(st.to_arr(inp[0]).reshape(-1))
+                    raise _Stop()
+                h0, h1 = ic0.register_forward_hook(out_hook), ic1.register_forward_pre_hook(in_hook)
+                try:
+                    i(torch.zeros(1, *shape))
+                except _Stop:
+                    pass
+                finally:
+                    h0.remove()
+                    h1.remove()
+            return cap
+        exw = Explorer(timeout_ms=Q)
+        for pc, cap in exw.explore(fnw):
+            if 'x' not in cap or len(cap['x']) != len(cap['y']):
+                res.oblige(False)
+                _viol(res, dict(base, observable='wiring', frm=n0, to=n1, y=[], key=f'{be}|wiring|{net}{kw}|{n0}->{n1}'), f'{be}: the output of {n0} does not reach {n1} element by element', selftest)
+                continue
+            diffs = [st.e_ne(a, b) for a, b in zip(cap['x'], cap['y'])]
+            diffs = [d for d in diffs if d is not False]
+            if not diffs and not selftest:
+                res.oblige(True)
+                continue
+            r, m = exw.check(z3.Or([st.lift(d, 'b') if not isinstance(d, bool) else z3.BoolVal(d) for d in diffs])) if diffs else ('sat', exw.must()[1])
+            if r == 'unknown':
+                res.inconclusive.append(f'wiring {n0}->{n1}: unknown')
+                continue
+            res.oblige(r == 'unsat')
+            if r == 'sat':
+                yv = [m.eval(v, model_completion=True).as_long() for v in cap['y']]
+                _viol(res, dict(base, observable='wiring', frm=n0, to=n1, y=yv, key=f'{be}|wiring|{net}{kw}|{n0}->{n1}'),
+                      f'{be}: integer activations {yv} emitted by {n0} do not reach {n1} unchanged (an op between the two integer layers alters them)', selftest)
+        res.absorb(exw)
     res.witnesses += 1
     res.witnesses_ok += 1 if res.obligations > 0 else 0
